@@ -18,6 +18,10 @@ func Replay(r *mon.Run, raw json.RawMessage) {
 	}
 	var e *env
 	var err error
+	// state shared between muxes only shows with other muxes in the process:
+	// build option muxes before and after the one under test
+	dummy := []RuleSpec{{ID: "dummy", In: "vf.Req", Out: "vf.Rsp", Verb: "GET", Tmpl: "/dummy/{a}"}}
+	buildDynamic(dummy, muxReplaced) //nolint:errcheck
 	if c.Kind == "c04-seq" {
 		e, err = buildDynamic(c.Rules, c.Mux)
 	} else {
@@ -28,6 +32,7 @@ func Replay(r *mon.Run, raw json.RawMessage) {
 		return
 	}
 	defer e.close()
+	buildDynamic(dummy, muxCustom) //nolint:errcheck
 	r.Distinct("replay-a")
 	r.Distinct("replay-b")
 	apply(r, &c, execCase(e, &c))
